@@ -107,11 +107,13 @@ type AdmRun struct {
 }
 
 type PullApiRecord struct {
-	Kind   string
-	Stream int
-	Result ApiResult
-	Step   int
-	AtMs   int64
+	Kind     string
+	Stream   int
+	Result   ApiResult
+	Step     int
+	SentStep int
+	AtMs     int64
+	Note     string
 }
 
 type StatRecord struct {
@@ -499,12 +501,36 @@ func (ar *AdmRun) exec(k *sim.Kernel, op AdmOp) {
 			"url": fmt.Sprintf("rtmp://%s/live/%s", originHostPort, StreamName(op.Stream)), "stream_name": StreamName(op.Stream),
 			"pull_timeout_ms": 5000, "pull_retry_num": op.Retry, "auto_stop_pull_after_no_out_ms": op.AutoStopMs,
 		})
+		sent := k.Step()
 		call := ar.W.ApiStart(fmt.Sprintf("api-pull-%d", k.Step()), "/api/ctrl/start_relay_pull", body)
 		k.Settle()
-		ar.PullApi = append(ar.PullApi, PullApiRecord{Kind: "start_pull", Stream: op.Stream, Result: call.Result(), Step: k.Step(), AtMs: k.NowMs()})
+		ar.PullApi = append(ar.PullApi, PullApiRecord{Kind: "start_pull", Stream: op.Stream, Result: call.Result(), Step: k.Step(), SentStep: sent, AtMs: k.NowMs()})
 		if call.C != nil {
 			call.C.Leave(false)
 		}
+	case "kick_stale":
+		// ids of sessions that have certainly ended (their stop was notified), else ids that never existed
+		k.Settle()
+		var ended []string
+		live := map[string]bool{}
+		for _, e := range ar.W.Notify.Snapshot() {
+			switch e.Kind {
+			case "pub_start", "sub_start", "pull_start":
+				live[e.SessionId] = true
+			case "pub_stop", "sub_stop", "pull_stop":
+				if live[e.SessionId] {
+					delete(live, e.SessionId)
+					ended = append(ended, e.SessionId)
+				}
+			}
+		}
+		id := []string{"RTMPPULL", "RTSPPULL", "RTMPPUBSUB", "RTSPPUB", "PSPUB", "FLVSUB", "TSSUB", "RTSPSUB", "CUSTOMIZEPUB", "XYZ"}[op.N%10] + fmt.Sprintf("%d", 90000+op.N)
+		if len(ended) > 0 && op.N%3 != 0 {
+			id = ended[op.N%len(ended)]
+		}
+		body, _ := json.Marshal(map[string]string{"stream_name": StreamName(op.Stream), "session_id": id})
+		res := ar.W.Api(fmt.Sprintf("api-kickstale-%d", k.Step()), "/api/ctrl/kick_session", body)
+		ar.PullApi = append(ar.PullApi, PullApiRecord{Kind: "kick_stale", Stream: op.Stream, Result: res, Step: k.Step(), AtMs: k.NowMs(), Note: id})
 	case "stop_pull":
 		res := ar.W.Api(fmt.Sprintf("api-stoppull-%d", k.Step()), "/api/ctrl/stop_relay_pull?stream_name="+StreamName(op.Stream), nil)
 		ar.PullApi = append(ar.PullApi, PullApiRecord{Kind: "stop_pull", Stream: op.Stream, Result: res, Step: k.Step(), AtMs: k.NowMs()})
